@@ -24,6 +24,42 @@ pub enum TimeVal {
   Abs(i64, u32, Rendering),
   /// present, non-null, not an RFC 3339 timestamp string
   NotATimestamp(Value),
+  /// a strictly rendered instant that WOULD be acceptable (future when `future`, else past: now -/+ delta seconds)
+  /// spoilt into something that is not RFC 3339 (suffix, prefix, missing or malformed component - see NEAR_MISS)
+  NearMiss(bool, u64, u8),
+}
+
+/// ways of spoiling a valid `YYYY-MM-DDThh:mm:ss[.f](Z|+hh:mm)` string; every result is definitely not RFC 3339
+pub const NEAR_MISS: usize = 21;
+fn spoil(valid: &str, kind: u8) -> String {
+  let date = &valid[..10];
+  let time = &valid[11..19];
+  let zone = &valid[19..];
+  match kind as usize % NEAR_MISS {
+    0 => format!("{valid}[UTC]"),
+    1 => format!("{valid}[Europe/Paris]"),
+    2 => format!("{valid}[]"),
+    3 => format!("{valid} "),
+    4 => format!("{valid}\n"),
+    5 => format!(" {valid}"),
+    6 => format!("{valid}Z"),
+    7 => format!("{valid}x"),
+    8 => format!("{valid} UTC"),
+    9 => format!("{date}T{}{zone}", &time[..5]),                 // no seconds
+    10 => date.to_string(),                                        // date only
+    11 => format!("{date}T{time}"),                                // no zone
+    12 => format!("{}T{}Z", date.replace('-', ""), time.replace(':', "")), // ISO 8601 basic format
+    13 => format!("{date}T{time},5{zone}"),                        // comma fraction
+    14 => format!("{date}T{time}.{zone}"),                         // empty fraction
+    15 => format!("{date}T{time}+0100"),                           // offset without colon
+    16 => format!("{date}T{time}+01"),                             // hour-only offset
+    17 => format!("{date}T{time}+24:00"),
+    18 => format!("{}-13-01T{time}{zone}", &date[..4]),            // month 13
+    19 => format!("{}-02-30T{time}{zone}", &date[..4]),            // February 30th
+    // (another separator character than 'T' is not in this list: RFC 3339 section 5.6 lets applications choose
+    // one, and the `time` crate accepts any - that is leniency, a don't-care here)
+    _ => format!("{date}T24:00:00{zone}"),
+  }
 }
 
 impl TimeVal {
@@ -35,6 +71,7 @@ impl TimeVal {
       TimeVal::Future(..) => "future",
       TimeVal::Abs(..) => "absolute",
       TimeVal::NotATimestamp(_) => "not-a-timestamp",
+      TimeVal::NearMiss(..) => "not-a-timestamp",
     }
   }
   /// resolve an absolute instant into Past/Future relative to `now` (None inside the margin)
@@ -60,6 +97,11 @@ impl TimeVal {
       TimeVal::Past(d, n, r) => (Some(Value::String(tgen::render(now.0 - *d as i64, *n, r))), r.strict()),
       TimeVal::Future(d, n, r) => (Some(Value::String(tgen::render(now.0 + *d as i64, *n, r))), r.strict()),
       TimeVal::Abs(s, n, r) => (Some(Value::String(tgen::render(*s, *n, r))), r.strict()),
+      TimeVal::NearMiss(future, d, kind) => {
+        let at = if *future { now.0 + *d as i64 } else { now.0 - *d as i64 };
+        let r = Rendering { offset_min: if kind % 3 == 0 { 0 } else { 60 }, digits: 0, sep: 0, zulu: if kind % 3 == 0 { 1 } else { 0 } };
+        (Some(Value::String(spoil(&tgen::render(at, 0, &r), *kind))), true)
+      }
       TimeVal::NotATimestamp(v) => (Some(v.clone()), true),
     }
   }
@@ -106,7 +148,7 @@ fn want_exp(v: &TimeVal, strict: bool) -> Want {
         Want::DontCare
       }
     }
-    TimeVal::NotATimestamp(_) => Want::Reject,
+    TimeVal::NotATimestamp(_) | TimeVal::NearMiss(..) => Want::Reject,
     TimeVal::Abs(..) => Want::DontCare,
   }
 }
@@ -122,7 +164,7 @@ fn want_nbf(v: &TimeVal, strict: bool) -> Want {
         Want::DontCare
       }
     }
-    TimeVal::NotATimestamp(_) => Want::Reject,
+    TimeVal::NotATimestamp(_) | TimeVal::NearMiss(..) => Want::Reject,
     TimeVal::Abs(..) => Want::DontCare,
   }
 }
@@ -172,6 +214,7 @@ impl Sub for DefaultTimeRules {
           cl.tag(r.class());
           cl.tag(if *d > 3_000_000_000 { "distance:far(>95y)" } else if *d > 86_400 * 366 { "distance:years" } else if *d > 86_400 { "distance:days" } else { "distance:<1d" });
         }
+        TimeVal::NearMiss(_, _, k) => cl.tag(format!("near-miss:{}", *k as usize % NEAR_MISS)),
         TimeVal::NotATimestamp(j) => cl.tag(format!("type:{}", match j { Value::Number(_) => "number", Value::Bool(_) => "bool", Value::Array(_) => "array", Value::Object(_) => "object", Value::String(s) if s.is_empty() => "empty-string", Value::String(_) => "text", Value::Null => "null" })),
         _ => {}
       }
@@ -213,7 +256,9 @@ impl Sub for DefaultTimeRules {
         let which = if we == Want::Reject { format!("exp:{}", c_exp.class()) } else { format!("nbf:{}", c_nbf.class()) };
         let detail_type = match (&c_exp, &c_nbf) {
           (TimeVal::NotATimestamp(v), _) if we == Want::Reject => type_name(v),
+          (TimeVal::NearMiss(..), _) if we == Want::Reject => "spoilt-timestamp",
           (_, TimeVal::NotATimestamp(v)) => type_name(v),
+          (_, TimeVal::NearMiss(..)) => "spoilt-timestamp",
           _ => "timestamp",
         };
         vio!("{}:accepted:{}:{}", pid, which, detail_type; "the default parser accepted payload {} ({}; now = {})", payload, p.label(), tgen::render(now.0, now.1, &Rendering { offset_min: 0, digits: 3, sep: 0, zulu: 1 }));
@@ -282,8 +327,13 @@ fn absolute() -> BoxedStrategy<TimeVal> {
     .boxed()
 }
 
-fn time_val() -> BoxedStrategy<TimeVal> {
-  prop_oneof![2 => Just(TimeVal::Absent), 1 => Just(TimeVal::Null), 6 => past(), 6 => future(), 2 => absolute(), 4 => not_a_timestamp().prop_map(TimeVal::NotATimestamp)].boxed()
+fn near_miss(future: bool) -> BoxedStrategy<TimeVal> {
+  (tgen::log_delta(3600, 3_000_000_000), 0u8..NEAR_MISS as u8).prop_map(move |(d, k)| TimeVal::NearMiss(future, d, k)).boxed()
+}
+
+/// `for_exp`: values for exp (near-misses built on a future instant) or for nbf (on a past instant)
+fn time_val(for_exp: bool) -> BoxedStrategy<TimeVal> {
+  prop_oneof![2 => Just(TimeVal::Absent), 1 => Just(TimeVal::Null), 6 => past(), 6 => future(), 2 => absolute(), 4 => not_a_timestamp().prop_map(TimeVal::NotATimestamp), 3 => near_miss(for_exp)].boxed()
 }
 
 fn extras() -> BoxedStrategy<Vec<(String, Value)>> {
@@ -291,7 +341,7 @@ fn extras() -> BoxedStrategy<Vec<(String, Value)>> {
 }
 
 fn case(pid: &'static str, proto: Proto) -> BoxedStrategy<TimeCase> {
-  let (e, n): (BoxedStrategy<TimeVal>, BoxedStrategy<TimeVal>) = if pid == "C11" { (time_val(), Just(TimeVal::Absent).boxed()) } else { (prop_oneof![3 => Just(TimeVal::Absent), 2 => past(), 3 => future(), 1 => not_a_timestamp().prop_map(TimeVal::NotATimestamp), 1 => Just(TimeVal::Null)].boxed(), time_val()) };
+  let (e, n): (BoxedStrategy<TimeVal>, BoxedStrategy<TimeVal>) = if pid == "C11" { (time_val(true), Just(TimeVal::Absent).boxed()) } else { (prop_oneof![3 => Just(TimeVal::Absent), 2 => past(), 3 => future(), 1 => not_a_timestamp().prop_map(TimeVal::NotATimestamp), 1 => Just(TimeVal::Null)].boxed(), time_val(false)) };
   (gen::bytes32(), e, n, extras(), prop_oneof![Just(None), Just(Some("f".to_string()))], prop_oneof![4 => Just(0u8), 1 => Just(1u8), 1 => Just(2u8)]).prop_map(move |(seed, exp, nbf, extra, footer, also_check)| TimeCase { proto, seed, exp, nbf, extra, footer, also_check }).boxed()
 }
 
